@@ -80,6 +80,23 @@ CHECKS.update({
         design='8 C19', note=AUDIT_NOTE, technique='TLC model checking + trace validation of connection logs against TraceAudit.tla'),
 })
 
+MULTI_NOTE = ("TLC; the fake network; the guarded wrappers around target_worker_thread / thread_exit (harness/observe.py) that log begin/end events with the "
+              "dirty set of the thread's table copy and impose a completion order; block attribution by the target label printed in each block")
+CHECKS.update({
+    'C07': dict(category='model_checking',
+        text=("SshMulti.tla models the thread pool, the per-thread table copies (as dirty sets) and the per-worker configuration copies; TLC checks Isolation over all "
+              "lists of <= 3 archetypes (one per edit channel), 1..3 threads and every interleaving, and confirms that the weaker mechanisms (tables discarded by the "
+              "main thread only; shared configuration) violate it. Real runs: every ordered pair (+ triples) of 9 server archetypes under every pool size and feasible "
+              "completion order, text/JSON/policy; each block must equal the single-target result byte for byte, and the begin/end traces are validated against TraceMulti.tla."),
+        design='8 C07', note=MULTI_NOTE, technique='TLC model checking of SshMulti.tla + schedule-controlled replay + trace validation (TraceMulti.tla)'),
+    'C08': dict(category='model_checking',
+        text=("SshMulti.tla with outcome archetypes (healthy, connection error, exception, SystemExit in the worker): TLC checks Blocks, ExitIsMax, Framing and liveness "
+              "RunEnds over all lists of <= 3 outcomes x 1..3 threads x interleavings, and confirms they fail when a worker's SystemExit escapes. Real runs: healthy targets "
+              "mixed with 11 failure archetypes in every position, text and JSON; block count/attribution/equality, exit status = highest rank, single JSON array; traces "
+              "validated against TraceMulti.tla."),
+        design='8 C08', note=MULTI_NOTE, technique='TLC model checking of SshMulti.tla + fault-archetype replay + trace validation (TraceMulti.tla)'),
+})
+
 NOT_BUILT = {}
 
 
